@@ -175,7 +175,9 @@ class TaskManager:
             assert isinstance(user_task, (Task, Future))
 
             def done_cb(future: Future) -> None:
-                self._pending_tasks.pop(name, None)
+                # Only unregister ourselves: the name may have been taken by a newer task in the meantime.
+                if self._pending_tasks.get(name, None) is future:
+                    self._pending_tasks.pop(name, None)
                 try:
                     future.result()
                 except CancelledError:
